@@ -31,6 +31,9 @@ BODIES = [
     {"a1": ["publish"], "c2": ["sub", "a3"]},
     {"c1": ["unsub", "c2"], "c2": ["sub", "c3"], "a3": ["unsubself"]},
     {"c2": ["unsubself"], "c1": ["sub", "c3"], "a2": ["publish"]},
+    {"a1": ["waitfor", "a2"], "a2": ["waitfor", "a3"], "a3": ["waitfor", "a1"]},
+    # one handler OBJECT registered at both levels (as c3 and as a3): two registrations, two deliveries, the core one first
+    {"_twins": ["c3", "a3"], "c1": ["unsub", "c3"], "a1": ["unsub", "a3"]},
 ]
 
 
